@@ -63,6 +63,7 @@ type handRec struct {
 	gbsChecked       bool
 	stacksJudged     bool
 	leftMidHand      bool
+	gbsFirst         *pt.TableBlindState
 	recordUnreliable bool // some call for this hand was not atomic: the harness record may lag the engine
 	phaseFrom        int64
 }
@@ -497,11 +498,17 @@ func (m *tableMon) checkDealtIn(h *handRec, prev *handRec) {
 	}
 	smOK := true
 	if sm := pt.VerifSeatManager(m.w.eng); sm != nil {
+		seats := sm.Seats() // read without the seat manager's lock: the monitor must never block
 		for _, p := range st.PlayerStates {
-			a, err := sm.IsPlayerActive(p.PlayerID)
-			if err != nil || a != p.IsParticipated {
+			a, found := false, false
+			for _, sp := range seats {
+				if sp != nil && sp.ID == p.PlayerID {
+					a, found = sp.Active(), true
+				}
+			}
+			if !found || a != p.IsParticipated {
 				smOK = false
-				c.Viol("C05", "C05.sm_active_mismatch", nil, "hand %d: seat manager says active=%v (err %v) for %s but the table dealt-in flag is %v", h.k, a, err, p.PlayerID, p.IsParticipated)
+				c.Viol("C05", "C05.sm_active_mismatch", nil, "hand %d: seat manager says active=%v (found %v) for %s but the table dealt-in flag is %v", h.k, a, found, p.PlayerID, p.IsParticipated)
 				break
 			}
 		}
@@ -546,16 +553,19 @@ func (m *tableMon) checkDealtIn(h *handRec, prev *handRec) {
 			m.missedHands[p.PlayerID] = 0
 		}
 		if dealt[p.PlayerID] {
-			if !m.everDealt[p.PlayerID] {
-				// true newcomer: seated after positions were set?
-				if gc, ok := m.seatedAtGC[p.PlayerID]; ok && gc >= 1 && !shortDeck && !hu && len(dealt) >= 3 {
-					c.Judged("C05.newcomer_first_hand")
-					if cwBetween(st.CurrentDealerSeat, st.CurrentBBSeat, p.Seat, n) {
-						c.Viol("C05", "C05.newcomer_did_not_wait", nil, "hand %d (D%d/SB%d/BB%d): newcomer %s at seat %d sits strictly between button and big blind but is dealt in", h.k, st.CurrentDealerSeat, st.CurrentSBSeat, st.CurrentBBSeat, p.PlayerID, p.Seat)
-						return
-					}
-					c.Probe("newcomer_dealt_in")
+			// A player who was not dealt into the previous hand (newcomer, or back after a bust and
+			// re-buy / sitting out) comes in on newcomer terms: not while the seat is strictly
+			// between the button and the big blind.
+			wasIn := prev != nil && indexOf(prev.roster, p.PlayerID) >= 0
+			gcSeated, known := m.seatedAtGC[p.PlayerID]
+			seatedLater := known && gcSeated >= 1 // given the seat after positions had been set
+			if prev != nil && prev.k == h.k-1 && !wasIn && (m.everDealt[p.PlayerID] || seatedLater) && !shortDeck && !hu && len(dealt) >= 3 {
+				c.Judged("C05.newcomer_first_hand")
+				if cwBetween(st.CurrentDealerSeat, st.CurrentBBSeat, p.Seat, n) {
+					c.Viol("C05", "C05.newcomer_did_not_wait", map[string]any{"returning_player": m.everDealt[p.PlayerID]}, "hand %d (D%d/SB%d/BB%d): %s at seat %d was not dealt into hand %d, sits strictly between button and big blind, but is dealt in", h.k, st.CurrentDealerSeat, st.CurrentSBSeat, st.CurrentBBSeat, p.PlayerID, p.Seat, prev.k)
+					return
 				}
+				c.Probe("newcomer_dealt_in")
 			}
 			m.everDealt[p.PlayerID] = true
 		}
@@ -735,7 +745,11 @@ func (m *tableMon) onHandSnapshot(t *pt.Table, seq int64) {
 	}
 	if !h.gbsChecked && st.Status == pt.TableStateStatus_TableGamePlaying && st.GameBlindState != nil {
 		h.gbsChecked = true
+		cp := *st.GameBlindState
+		h.gbsFirst = &cp
 		m.checkGameBlindState(h, t)
+	} else if h.gbsChecked {
+		m.checkGameBlindStable(h, t)
 	}
 	// event tracking (C11, C15)
 	evKey := gs.Status.CurrentEvent + "/" + gs.Status.Round
@@ -888,6 +902,18 @@ func (m *tableMon) checkGameBlindState(h *handRec, t *pt.Table) {
 		if len(m.acceptableBlinds(h)) == 1 {
 			c.Viol("C12", "C12.published_level_differs", nil, "hand %d: published game blind state %+v differs from the amounts charged (ante %d, blinds %+v)", h.k, *g, gs.Meta.Ante, gs.Meta.Blind)
 		}
+	}
+}
+
+// C12: the level published for a hand stays the one it opened with.
+func (m *tableMon) checkGameBlindStable(h *handRec, t *pt.Table) {
+	g := t.State.GameBlindState
+	if h.gbsFirst == nil || g == nil {
+		return
+	}
+	m.c.Judged("C12.published_level_stable")
+	if *g != *h.gbsFirst {
+		m.c.Viol("C12", "C12.published_level_changed_during_hand", nil, "hand %d: the published game blind state was %+v when the hand started and is %+v now (status %s)", h.k, *h.gbsFirst, *g, t.State.Status)
 	}
 }
 
@@ -1085,14 +1111,16 @@ func (m *tableMon) onSettled(t *pt.Table, seq int64) {
 	if h.phase != nil {
 		h.phase.closed = true
 	}
+	m.checkGameBlindStable(h, t)
 	gs := st.GameState
 	if gs == nil || gs.Result == nil {
 		c.Viol("C11", "C11.settled_without_result", nil, "hand %d settled without a result", h.k)
 		return
 	}
 	if fmt.Sprint(rosterOf(t)) != fmt.Sprint(h.roster) {
-		c.Viol("C02", "C02.roster_changed", map[string]any{"dealt_in_player_left": h.leftMidHand || m.rosterLossExplained(h, rosterOf(t))}, "hand %d: player list was %v at open and is %v at settlement", h.k, h.roster, rosterOf(t))
-		return
+		gameStatus := true
+		c.Viol("C02", "C02.roster_changed", map[string]any{"dealt_in_player_left": h.leftMidHand || m.rosterLossExplained(h, rosterOf(t)), "table_status_is_a_hand_status": gameStatus}, "hand %d: player list was %v at open and is %v at settlement", h.k, h.roster, rosterOf(t))
+		// C01 is still judged below, keyed by the roster fixed at open
 	}
 	if h.tainted != "" {
 		m.ledgerOff = "hand " + fmt.Sprint(h.k) + ": " + h.tainted
